@@ -60,6 +60,28 @@ func (c *FCtx) bodyEnv(st *State, pos token.Pos) *CEnv {
 				obj = fs.Lookup(name)
 			}
 		}
+		if _, isVar := obj.(*types.Var); !isVar {
+			// renamed since the contract was written: resolve through the position recorded in the `names` clause
+			if con := c.eng.cs.Funcs[fi.Key]; namesUsable(fi, con) {
+				var pick *types.Var
+				for k, rec := range con.Names {
+					if rec != name {
+						continue
+					}
+					v := fi.DeclOrder[k]
+					if v.Name() == name {
+						continue
+					}
+					if k >= con.NamesIn+con.NamesOut && !(v.Parent() != nil && v.Parent().Contains(pos) && v.Pos() <= pos) {
+						continue
+					}
+					pick = v // the innermost (last declared) candidate in scope
+				}
+				if pick != nil {
+					obj = pick
+				}
+			}
+		}
 		v, ok := obj.(*types.Var)
 		if !ok {
 			return nil, false
@@ -143,6 +165,7 @@ func (c *FCtx) run(alias [2]string) {
 	var rparams []replayParam
 	isRecv := map[string]bool{}
 	replayable := true
+	npos := 0
 	bind := func(fl *ast.FieldList, recv bool) {
 		if fl == nil {
 			return
@@ -157,9 +180,18 @@ func (c *FCtx) run(alias [2]string) {
 					continue
 				}
 				obj := c.info.Defs[n]
-				c.params[n.Name] = obj
-				order = append(order, n.Name)
-				isRecv[n.Name] = recv
+				name := n.Name
+				if namesUsable(fi, con) && npos < con.NamesIn {
+					// the contract's own name for this parameter (it may have been renamed in the source since)
+					if rec := con.Names[npos]; rec != name {
+						c.params[name] = obj
+						name = rec
+					}
+				}
+				npos++
+				c.params[name] = obj
+				order = append(order, name)
+				isRecv[name] = recv
 			}
 		}
 	}
